@@ -126,20 +126,22 @@ def _gen_cases(rng, n):
         first = 'dw' if k % 10 == 3 else ('addin' if k % 10 == 7 else None)
         desc = mc.gen_desc(rng, first=first)
         cfg = mc.make_cfg(rng)
+        if k % 4 == 1:
+            cfg['ties'] = 1      # tie stream: exactly equal top coefficients; the selection is the first maximum
         cases.append({'kind': 'net', 'desc': desc, 'cfg': cfg, 'train_first': int(rng.random() < 0.4)})
     return cases
 
 
-def _key(cls, what):
+def _key(cls, what, ties=False):
     if what == 'in-precision' and cls == 'mps-module-in-input-component':
         return FIND_INQ
-    return 'C02:%s:%s' % (what, cls)
+    return 'C02:%s:%s%s' % (what, cls, ':coefficient-tie' if ties else '')
 
 
 def _judge(chk, case, res):
     """oracle verdicts of one case -> violations"""
     for what, msg in res['fail']:
-        chk.violation(_key(res['class'], what), msg, case)
+        chk.violation(_key(res['class'], what, bool(case['cfg'].get('ties'))), msg, case)
 
 
 def run(chk):
@@ -148,7 +150,8 @@ def run(chk):
                 'conv or a residual add directly on the network input) x precision tuples: 1..3 values of {2,4,8} in '
                 'random order, drawn separately for weights / activations / network input x coefficients with gaps '
                 '>= 1/16 per quantizer object x T in {0.05,0.3,1,5,20} x gumbel on/off x export after an eval forward '
-                'or right after a training forward. non-trivial = at least two candidates for some quantizer; '
+                'or right after a training forward; every 4th net draws its coefficients from the tie stream (exactly equal top '
+                'coefficients, selection = first maximum). non-trivial = at least two candidates for some quantizer; '
                 'distinct = distinct (program, tuples, coefficients)')
     chk.trusted.append('torch.fx tracing, BatchNorm fusion arithmetic, torch kernels and the quantizer functions '
                        'themselves (abstract in the theorems, exercised by the end-to-end oracle)')
@@ -183,6 +186,8 @@ def run(chk):
         chk.hist['train_first=%d' % case['train_first']] = chk.hist.get('train_first=%d' % case['train_first'], 0) + 1
         chk.hist['T=%s' % case['cfg']['T']] = chk.hist.get('T=%s' % case['cfg']['T'], 0) + 1
         chk.hist['gumbel=%d' % case['cfg']['gumbel']] = chk.hist.get('gumbel=%d' % case['cfg']['gumbel'], 0) + 1
+        tk = 'ties=%d' % int(bool(case['cfg'].get('ties')))
+        chk.hist[tk] = chk.hist.get(tk, 0) + 1
         _judge(chk, case, r)
         if r.get('finite') is False:
             chk.observe('non-finite network output on a generated input (the 0*y assumption does not apply there)')
